@@ -1028,6 +1028,8 @@ class Router:
             )
 
         meth = method_call.method_spec()
+        if overriding_name is not None:
+            meth.name = overriding_name
         if description is not None:
             meth.desc = description
         self.methods.append(meth)
